@@ -21,10 +21,25 @@ const vxTimeLim = int64(1) << 60
 func vxTemporalFacts(n int) (*factstore.TemporalStore, ast.Atom, []vxSpan) {
 	store := factstore.NewTemporalStore()
 	atom := ast.NewAtom("p", ast.Number(1))
+	raw := vxParam("RAW", 0) == 1
+	var in []vxSpan
 	for i := 0; i < n; i++ {
 		s, e := vxInt64(fmt.Sprintf("s%d", i)), vxInt64(fmt.Sprintf("e%d", i))
 		vxAssume(s <= e && s > -vxTimeLim && e < vxTimeLim)
-		store.Add(atom, ast.Interval{Start: ast.TemporalBound{Type: ast.TimestampBound, Timestamp: s}, End: ast.TemporalBound{Type: ast.TimestampBound, Timestamp: e}})
+		if raw {
+			// no Coalesce call below: the intervals are pairwise disjoint and non-adjacent, so the
+			// store is coalesced as inserted (in any order)
+			for _, o := range in {
+				vxAssume(e+1 < o.s || o.e+1 < s)
+			}
+		}
+		in = append(in, vxSpan{s, e})
+	}
+	for _, iv := range in {
+		store.Add(atom, ast.Interval{Start: ast.TemporalBound{Type: ast.TimestampBound, Timestamp: iv.s}, End: ast.TemporalBound{Type: ast.TimestampBound, Timestamp: iv.e}})
+	}
+	if raw {
+		return store, atom, in
 	}
 	store.Coalesce(atom.Predicate)
 	var stored []vxSpan
